@@ -64,6 +64,32 @@ def gen_history(rng, case, maxlen):
             ops += [["set_initial", call], [rng.choice(["sample", "solve", "value"])], ["set_initial", call2]]
             c.setdefault("calls", []).extend([call, call2])
             continue
+        ctl = c.get("controls", [])
+        same = [(a_, b_) for a_ in range(len(ctl)) for b_ in range(len(ctl)) if a_ < b_ and ctl[a_] == ctl[b_] and ctl[a_].get("cols", 1) == 1]
+        if step == npre and same and not c.get("discrete") and rng.random() < 0.9:
+            # a rule re-declared after a query with two same-shaped controls exchanged (rockit names every control 'u': the printed
+            # rule is unchanged, the rule is not)
+            from ..cases import nslots
+            a_, b_ = rng.choice(same)
+            sa, sb, nn = nslots(ctl[:a_]), nslots(ctl[:b_]), nslots([ctl[a_]])
+
+            def swap(e):
+                if not isinstance(e, list):
+                    return e
+                if e[0] == "s" and e[1] == "u" and len(e) > 2:
+                    if sa <= e[2] < sa + nn:
+                        return ["s", "u", e[2] - sa + sb]
+                    if sb <= e[2] < sb + nn:
+                        return ["s", "u", e[2] - sb + sa]
+                    return e
+                return [swap(x_) if isinstance(x_, list) else x_ for x_ in e]
+            j = rng.randrange(len(c["states"]))
+            off = nslots(c["states"][:j]); nj = nslots([c["states"][j]])
+            new = [swap(e_) for e_ in c["ode"][off:off + nj]]
+            if new != c["ode"][off:off + nj] and c["states"][j].get("cols", 1) == 1:
+                ops += [[rng.choice(["sample", "solve", "value"])], ["set_der", j, new]]
+                c["ode"] = c["ode"][:off] + new + c["ode"][off + nj:]
+                continue
         if step == npre and "free" in c.get("T", {}) and rng.random() < 0.6:
             # a new guess for the free horizon given to a transcribed (solved) OCP
             v = jq(rng.choice([1, 2, Fraction(3, 2), Fraction(5, 2)]))
@@ -306,6 +332,10 @@ def worker(args):
                             pass      # an outdated solution may refuse to be read
                 elif k == "set_value":
                     ocp.set_value(B.S["p"][op[1]], float(Fr(op[2])))
+                elif k == "set_der":
+                    xo = B.objs["x"][op[1]]
+                    rhs = ca.vertcat(*[B.ex(e_) for e_ in op[2]])
+                    ocp.set_der(xo, ca.reshape(rhs, xo.shape[0], xo.shape[1]))
                 elif k == "set_value_np":
                     buf = rec.setdefault("np_buffers", {})
                     if op[1] in buf:
@@ -419,6 +449,10 @@ def gen_cases(seed, n, maxlen):
     out = []
     for i in range(n):
         c = gen.gen_base(rng, OPTS)
+        if i % 4 == 1 and c.get("controls") == [{"rows": 1, "cols": 1}] and not c.get("discrete"):
+            # a second control of the same shape that enters the first rule (two symbols that rockit both names 'u')
+            c["controls"] = c["controls"] + [{"rows": 1, "cols": 1}]
+            c["ode"][0] = ["+", c["ode"][0], ["*", gen.C(gen.dyadic_nz(random.Random(seed * 31 + i), -2, 2, 1)), ["s", "u", 1]]]
         gen.add_constraints(rng, c, dict(OPTS, roots=False))
         gen.add_objective(rng, c, OPTS)
         gen.touch_objective(c)
